@@ -42,7 +42,8 @@ REQUIRED = ['recursiveloader:ManifestRecursiveLoader.assert_directory_verifies',
 ASSUMPTIONS = ['zones U1-U4, U10, U11 are unconstrained (see DESIGN.md 1.1)',
                'permission-based unreadability is C06']
 
-CLASSES = (gmutate.FS_CLASSES * 3 + gmutate.MAN_CLASSES * 2 + gmutate.ODD_CLASSES)
+CLASSES = (gmutate.FS_CLASSES * 3 + gmutate.MAN_CLASSES * 2 + gmutate.ODD_CLASSES
+           + ['rmdir-ignore-first'] * 3)
 N = {'quick': 3000, 'thorough': 150000}
 PER_UNIT = 25
 
@@ -150,7 +151,8 @@ def judge(ctx, root, case):
                     and not any(mtext.comp_prefix(p, ig) for ig in res.ignores) \
                     and not any(mtext.comp_prefix(p, q) and p != q for q in list(res.required) + list(res.optional)) \
                     and not any(x['class'] in ('file-over-dir', 'retype', 'delete',
-                                               'm-ignore-file', 'm-entry-for-dir')
+                                               'm-ignore-file', 'm-entry-for-dir',
+                                               'rmdir-ignore-first')
                                 or x is not r and x.get('path') == p for x in recs):
                 ctx.inconsistent('mutation %s of %r not reported by the model: %r'
                                  % (r['class'], p, res.summary()), case)
